@@ -94,7 +94,7 @@ theorem count_filter_ne (l : List Handle) (h a : Handle) :
   | nil => simp
   | cons b l ih =>
     by_cases hb : b = h <;> by_cases ha : a = h <;> by_cases hab : b = a <;>
-      simp_all [List.filter_cons, List.count_cons]
+      simp_all
 
 theorem count_erase_timeout (l : List Handle) (h : Handle) (s : Nat) :
     (l.erase h).count (Handle.timeout s) =
@@ -246,7 +246,7 @@ def SEvo (now : Nat) (x y : Scope) : Prop :=
 theorem SNorm.of_seq {now : Nat} {x y : Scope} (e : SEq x y) : SNorm now x y := by
   obtain ⟨e1, e2, e3, e4, e5, e6, e7, e8⟩ := e
   constructor
-  all_goals (try simp only [e1, e2, e3, e4, e5, e6, e7, e8])
+  all_goals (try simp only [e3, e4, e5, e6, e7, e8])
   all_goals simp_all
 
 theorem SEvo.of_seq {now : Nat} {x y : Scope} (e : SEq x y) : SEvo now x y :=
